@@ -1,0 +1,24 @@
+//go:build verif
+
+package p9p
+
+// VerifFidEnt reports the Dirent and File currently bound to fid in a session
+// created by SFileSys (verification hook; build tag "verif" only, add-only,
+// no behaviour change).  ok is false when s is not such a session, the fid is
+// not in the table, or its lock is held.
+func VerifFidEnt(s Session, fid Fid) (ent Dirent, file File, ok bool) {
+	sess, isSess := s.(*session)
+	if !isSess {
+		return nil, nil, false
+	}
+	v, found := sess.refs.Load(fid)
+	if !found {
+		return nil, nil, false
+	}
+	ref, _ := v.(*SFid)
+	if !ref.TryLock() {
+		return nil, nil, false
+	}
+	defer ref.Unlock()
+	return ref.Ent, ref.File, true
+}
